@@ -14,11 +14,19 @@ ASSUMPTIONS = ["generated programs terminate; loops are counter-guarded"]
 default_compare = lambda m, i: C.compare_run(m, i)
 
 
-def wrap(st, depth, kind):
-    """nest a statement `depth` levels deep in conditionals / blocks"""
+PRES = {0: [],
+        1: [("if", [(G.b(True), [("print", G.s("আগে"))])], None)],                       # a closed conditional directly before
+        2: [("block", [("decl", "ক", G.num(77)), ("print", G.var("ক"))])],                  # a closed bare block directly before
+        3: [("if", [(G.b(False), [("print", G.s("না"))])], [("print", G.s("নয়তো"))])]}     # a closed if/else chain directly before
+
+
+def wrap(st, depth, kind, pre=0):
+    """nest a statement `depth` levels deep in conditionals / blocks; `pre` puts a closed construct directly before it in
+    the innermost block (so the statement follows a `}` instead of a `{`)"""
+    sts = list(PRES[pre]) + [st]
     for d in range(depth):
-        st = ("if", [(G.b(True), [st])], None) if (kind >> d) & 1 == 0 else ("block", [("decl", "ক", G.num(90 + d)), st])
-    return st
+        sts = [("if", [(G.b(True), sts)], None)] if (kind >> d) & 1 == 0 else [("block", [("decl", "ক", G.num(90 + d))] + sts)]
+    return sts
 
 
 def followers(mask, tag):
@@ -35,14 +43,14 @@ def followers(mask, tag):
     return out
 
 
-def loop_prog(action, depth, kind, mask, limit, ctx):
+def loop_prog(action, depth, kind, mask, limit, ctx, pre=0):
     trigger = G.bin_("==", G.var("গ"), G.num(2)) if action != "none" else G.b(False)
     act = ("break",) if action == "break" else ("continue",)
     body = [("if", [(G.bin_(">", G.var("গ"), G.num(limit)), [("break",)])], None),
             ("assign", "গ", [], G.bin_("+", G.var("গ"), G.num(1))),
             ("decl", "ক", G.bin_("*", G.var("গ"), G.num(10))),
             ("print", G.var("ক")),
-            ("if", [(trigger, [wrap(act, depth, kind)])], None)] + followers(mask, "অ")
+            ("if", [(trigger, wrap(act, depth, kind, pre))], None)] + followers(mask, "অ")
     core = [("decl", "ক", G.num(1)), ("decl", "গ", G.num(0)), ("loop", body), ("print", G.var("ক")), ("print", G.var("গ"))]
     if ctx == 0:
         return core
@@ -70,6 +78,19 @@ def cases(rng, tier, stats):
                             out.append(prog_case("loop-systematic", prog, nontrivial=mask != 0,
                                                  info={"action": action, "depth": depth, "kind": kind, "followers": mask, "limit": limit, "context": ctx}))
                             n += 1
+    # the break / continue directly after a closed construct (`}` before it instead of `{`)
+    np_ = 0
+    for action in ("break", "continue"):
+        for depth in (0, 1, 2):
+            for kind in sorted({0, (1 << depth) - 1}):
+                for pre in (1, 2, 3):
+                    for mask in ((0, 1, 2, 15) if tier != "thorough" else range(16)):
+                        for ctx in ((0, 2) if tier != "thorough" else range(4)):
+                            prog = loop_prog(action, depth, kind, mask, 3, ctx, pre)
+                            out.append(prog_case("loop-after-closed-construct", prog,
+                                                 info={"action": action, "depth": depth, "kind": kind, "followers": mask, "context": ctx, "pre": pre}))
+                            np_ += 1
+    stats["after_closed_construct"] = np_
     stats["systematic"] = n
     # return from inside a loop in the callee, then break/continue in the caller's loop
     prog = [("func", "ফ", [], [("decl", "i", G.num(0)), ("loop", [("if", [(G.b(True), [("return", G.num(7))])], None)])]),
